@@ -646,8 +646,49 @@ def h_reason_bytes(F, R):
     R.floor("H-raise", "reason-code cases", n, 14)
 
 
+def _h_empty_acks(F, R):
+    """The acknowledgements have no such rule: a SUBACK / UNSUBACK frame that ends after the packet identifier (and, in v5, an empty
+    property block) is accepted with an empty list, nothing else is read."""
+    for fam, typ in (("v3", "Suback"), ("v5", "Suback"), ("v5", "Unsuback")):
+        fid = "%s::subscribe::%s::decode_async" % (fam, typ)
+        if fid not in F.fns:
+            raise AnchorLost(fid)
+        reads = []
+
+        def hook(d, res, args, node, env):
+            r = res or d
+            name = node["fn"].get("name")
+            if r == "common::utils::read_u16":
+                return ok(Sym("U16"))
+            if r in ("common::utils::read_u8", "common::utils::read_string", "common::utils::read_bytes"):
+                reads.append(r)
+                return ok(Sym("X"))
+            if r.endswith("Properties::decode_async"):
+                return ok(Sym("PROPS"))
+            if name == "encode_len":
+                return 1
+            if r.endswith("TryFrom<u16>>::try_from"):
+                return ok(Sym("PID"))
+            return None
+        arg = 2 if fam == "v3" else _hdr("v5", typ, 3)
+        try:
+            r = PE(F, call_hook=hook, cond_hook=TRY_OK).call_fn(fid, [Sym("READER"), arg])
+        except Undecided as e:
+            raise AnchorLost("%s cannot be evaluated: %s" % (fid, e))
+        k = result_kind(r)
+        v = k[1] if k[0] == "ok" else None
+        lst = v.fields.get("topics") if isinstance(v, Adt) else None
+        empty = lst is None or (isinstance(lst, Tup) and not lst.items) or (isinstance(lst, Sym) and isinstance(lst.tag, tuple) and lst.tag[:1] == ("call",)
+                                                                            and str(lst.tag[1]).rsplit("::", 1)[-1] in ("new", "with_capacity", "default"))
+        good = isinstance(v, Adt) and not reads and empty
+        R.check(good, "H-raise", "empty-acknowledgement/%s/%s" % (fam, typ),
+                "%s on a frame that ends after the packet identifier%s returns %r after reading %s (expected: accepted with an empty list)" % (
+                    fid, " and an empty property block" if fam == "v5" else "", r, reads), where=fid)
+
+
 def h_empty_subscription(F, R):
     """SUBSCRIBE / UNSUBSCRIBE without any topic are rejected with EmptySubscription before a topic is read."""
+    _h_empty_acks(F, R)
     for fam, typ in itertools.product(FAMS, ("Subscribe", "Unsubscribe")):
         fid = "%s::subscribe::%s::decode_async" % (fam, typ)
         reads = []
@@ -1581,8 +1622,8 @@ def t_prims(F, R):
         flat = []
         for d in w.writes:
             flat += list(d.items) if isinstance(d, Tup) else [("opaque", d)]
-        if size == 1:
-            good = flat == [V]
+        if size == 1 and flat == [V]:
+            good = True
         else:
             good = [_byte_of(b, V, size) if not (isinstance(b, tuple) and b and b[0] == "opaque") else None for b in flat] == list(range(size))
         R.check(good and result_kind(r)[0] == "ok", "T-prims", fn,
